@@ -20,10 +20,12 @@ import (
 	"io"
 	"net/http"
 	"net/url"
+	"reflect"
 	"sort"
 	"strings"
 	"testing"
 	"time"
+	"unsafe"
 
 	"github.com/go-jose/go-jose/v4"
 
@@ -152,7 +154,7 @@ mechanisms:
             X-Sub: "{{ .Subject.ID }}"
             X-Val: "{{ .Values.b }}"
         payload: "{{ .Subject.ID }}:{{ .Values.a }}"
-        forward_response_headers_to_upstream: [ "X-Pdp" ]
+        forward_response_headers_to_upstream: [ "X-Pdp", "X-Aaa", "X-Mmm" ]
         cache_ttl: 1m
         values:
           a: "one"
@@ -167,7 +169,8 @@ mechanisms:
           headers:
             X-Sub: "{{ .Subject.ID }}"
         payload: "{{ .Subject.ID }}"
-        forward_headers: [ "X-Fwd" ]
+        forward_headers: [ "X-Fwd2", "X-Fwd", "X-Another" ]
+        forward_cookies: [ "sess", "other" ]
         cache_ttl: 1m
         values:
           a: "one"
@@ -341,6 +344,7 @@ type inst struct {
 	spec     mechSpec
 	override map[string]any // nil = the prototype itself
 	exec     func(ctx *simCtx) (string, error)
+	obj      any // the mechanism instance itself (for the structural digest)
 }
 
 func create(mf mechanisms.MechanismFactory, sp mechSpec, override map[string]any) (*inst, error) {
@@ -356,6 +360,7 @@ func create(mf mechanisms.MechanismFactory, sp mechSpec, override map[string]any
 		if err != nil {
 			return nil, err
 		}
+		in.obj = m
 		in.exec = func(ctx *simCtx) (string, error) {
 			s, err := m.Execute(ctx)
 			if err != nil {
@@ -369,24 +374,28 @@ func create(mf mechanisms.MechanismFactory, sp mechSpec, override map[string]any
 		if err != nil {
 			return nil, err
 		}
+		in.obj = m
 		in.exec = func(ctx *simCtx) (string, error) { return "", m.Execute(ctx, sub) }
 	case "contextualizer":
 		m, err := mf.CreateContextualizer("", sp.id, conf)
 		if err != nil {
 			return nil, err
 		}
+		in.obj = m
 		in.exec = func(ctx *simCtx) (string, error) { return fmt.Sprintf("continue=%v", m.ContinueOnError()), m.Execute(ctx, sub) }
 	case "finalizer":
 		m, err := mf.CreateFinalizer("", sp.id, conf)
 		if err != nil {
 			return nil, err
 		}
+		in.obj = m
 		in.exec = func(ctx *simCtx) (string, error) { return "", m.Execute(ctx, sub) }
 	default:
 		m, err := mf.CreateErrorHandler("", sp.id, conf)
 		if err != nil {
 			return nil, err
 		}
+		in.obj = m
 		in.exec = func(ctx *simCtx) (string, error) { return "", m.Execute(ctx, heimdall.ErrAuthentication) }
 	}
 	return in, nil
@@ -509,6 +518,94 @@ func signature1(n *simnet.Net, in *inst, hdrs map[string]string, cch cache.Cache
 	return b.String()
 }
 
+// structDigest renders the heimdall-owned plain data reachable from a mechanism (strings, numbers, bools, durations and
+// slices / maps / structs / pointers of those, through types defined in heimdall's module). Foreign types (CEL programs,
+// text templates, keys, locks) are skipped: their internals may legitimately change (caches, lazy compilation).
+func structDigest(v any) string {
+	var b strings.Builder
+	seen := map[uintptr]bool{}
+	var walk func(rv reflect.Value, depth int)
+	walk = func(rv reflect.Value, depth int) {
+		if depth > 12 {
+			return
+		}
+		switch rv.Kind() {
+		case reflect.String:
+			fmt.Fprintf(&b, "%q,", rv.String())
+		case reflect.Bool:
+			fmt.Fprintf(&b, "%v,", rv.Bool())
+		case reflect.Int, reflect.Int8, reflect.Int16, reflect.Int32, reflect.Int64:
+			fmt.Fprintf(&b, "%d,", rv.Int())
+		case reflect.Uint, reflect.Uint8, reflect.Uint16, reflect.Uint32, reflect.Uint64:
+			fmt.Fprintf(&b, "%d,", rv.Uint())
+		case reflect.Float32, reflect.Float64:
+			fmt.Fprintf(&b, "%v,", rv.Float())
+		case reflect.Interface:
+			if !rv.IsNil() {
+				walk(rv.Elem(), depth+1)
+			}
+		case reflect.Pointer:
+			if rv.IsNil() {
+				b.WriteString("nil,")
+				return
+			}
+			if seen[rv.Pointer()] {
+				return
+			}
+			seen[rv.Pointer()] = true
+			walk(rv.Elem(), depth+1)
+		case reflect.Slice, reflect.Array:
+			if rv.Kind() == reflect.Slice && rv.Type().Elem().Kind() == reflect.Uint8 {
+				return // hashes and raw bytes
+			}
+			b.WriteString("[")
+			for i := 0; i < rv.Len(); i++ {
+				walk(rv.Index(i), depth+1)
+			}
+			b.WriteString("],")
+		case reflect.Map:
+			type kv struct{ k, v string }
+			var items []kv
+			it := rv.MapRange()
+			for it.Next() {
+				var sub strings.Builder
+				old := b
+				b = sub
+				walk(it.Value(), depth+1)
+				val := b.String()
+				b = old
+				items = append(items, kv{fmt.Sprint(it.Key().Interface()), val})
+			}
+			sort.Slice(items, func(i, j int) bool { return items[i].k < items[j].k })
+			b.WriteString("{")
+			for _, it := range items {
+				b.WriteString(it.k + ":" + it.v)
+			}
+			b.WriteString("},")
+		case reflect.Struct:
+			if !strings.HasPrefix(rv.Type().PkgPath(), "github.com/dadrus/heimdall") {
+				return
+			}
+			b.WriteString(rv.Type().Name() + "(")
+			for i := 0; i < rv.NumField(); i++ {
+				f := rv.Field(i)
+				if !f.CanInterface() {
+					if !f.CanAddr() {
+						continue
+					}
+					f = reflect.NewAt(f.Type(), unsafe.Pointer(f.UnsafeAddr())).Elem()
+				}
+				b.WriteString(rv.Type().Field(i).Name + "=")
+				walk(f, depth+1)
+			}
+			b.WriteString("),")
+		}
+	}
+	walk(reflect.ValueOf(v), 0)
+	h := sha256.Sum256([]byte(b.String()))
+	return hex.EncodeToString(h[:])[:12]
+}
+
 func normaliseJWT(h string) string {
 	tok := strings.TrimPrefix(h, "Bearer ")
 	pl, err := simkeys.JWTPayload(tok)
@@ -562,8 +659,9 @@ func c17Sim(r *simcore.Run) {
 
 	// ---- part 1: locality of overrides over a creation/execution history (sequential)
 	type tracked struct {
-		in  *inst
-		sig string
+		in     *inst
+		sig    string
+		digest string // structural digest taken after the first execution (lazy initialisation happens there)
 	}
 	var live []tracked
 	protos := map[string]*inst{}
@@ -576,7 +674,8 @@ func c17Sim(r *simcore.Run) {
 		protos[sp.id] = p
 		// first use matters (lazy initialisation happens there): some prototypes are first executed only later
 		if s.Draw(2, "probe-proto-first") == 1 {
-			live = append(live, tracked{p, signature(net, p)})
+			sig := signature(net, p)
+			live = append(live, tracked{p, sig, structDigest(p.obj)})
 		}
 	}
 	nOps := 3 + s.Draw(10, "history")
@@ -584,6 +683,10 @@ func c17Sim(r *simcore.Run) {
 		for _, t := range live {
 			if got := signature(net, t.in); got != t.sig {
 				r.Fail("behaviour-changed", t.in.spec.id, "after %s, %s behaves differently for the same request:\n  before: %s\n  after:  %s", after, t.in.name(), t.sig, got)
+				return false
+			}
+			if got := structDigest(t.in.obj); got != t.digest {
+				r.Fail("mechanism-state-changed", t.in.spec.id, "after %s, the configuration data held by %s changed (digest %s -> %s) although it was only executed or other variants were created", after, t.in.name(), t.digest, got)
 				return false
 			}
 		}
@@ -609,7 +712,7 @@ func c17Sim(r *simcore.Run) {
 				}
 			}
 			if !known {
-				live = append(live, tracked{in, sig})
+				live = append(live, tracked{in, sig, structDigest(in.obj)})
 			}
 		default: // create a variant
 			var ov map[string]any
@@ -630,7 +733,7 @@ func c17Sim(r *simcore.Run) {
 			}
 			created = append(created, v)
 			sig := signature(net, v)
-			live = append(live, tracked{v, sig})
+			live = append(live, tracked{v, sig, structDigest(v.obj)})
 			r.Logf("op%d create %s -> %s", i, v.name(), trunc(sig))
 			r.Count("variants-created", 1)
 		}
